@@ -2,6 +2,7 @@ package hx
 
 import (
 	"fmt"
+	"strings"
 
 	"github.com/ChrisTrenkamp/xsel"
 )
@@ -447,7 +448,16 @@ func GenProperty(w *Writer, prop string, t Tier, seed uint64) error {
 		})
 	case "C12":
 		return runEvalPlans(w, r, t, []evalPlan{
-			{axes: SimpleAxes, fam: "nodefn", doc: func(r *Rng) DocCfg { c := DefaultDocCfg(); c.Lang = true; return c }, gen: func(g *ExprGen, d *Doc, r *Rng) (Expr, int) {
+			{axes: SimpleAxes, fam: "nodefn", doc: func(r *Rng) DocCfg {
+				c := DefaultDocCfg()
+				c.Lang = true
+				if r.Chance(1, 4) {
+					// local names with white space around them (a JSON key may be any string): name() must
+					// agree with local-name() (seeded change C12-9 trimmed one of them)
+					c.NamePool = append(append([]string{}, c.NamePool...), " padded ", "\tid", "k ", " ")
+				}
+				return c
+			}, gen: func(g *ExprGen, d *Doc, r *Rng) (Expr, int) {
 				switch r.Intn(8) {
 				case 0, 1, 2:
 					fn := Pick(r, []string{"name", "local-name", "namespace-uri"})
@@ -509,6 +519,20 @@ func GenProperty(w *Writer, prop string, t Tier, seed uint64) error {
 		return runEvalPlans(w, r, t, []evalPlan{
 			{fam: "subq", doc: docDefault, gen: func(g *ExprGen, d *Doc, r *Rng) (Expr, int) {
 				g.Cfg.Preds = 3
+				if r.Chance(1, 10) {
+					// `self::` after an attribute or namespace step, with `.`/`..` in between: the principal
+					// node type of a step is that of ITS axis (seeded changes C01-7, C18-8)
+					var e Expr = Step{Base: Step{Base: Root{}, Axis: "descendant-or-self", Test: Test{Kind: "node"}},
+						Axis: Pick(r, []string{"attribute", "namespace", "attribute"}), Test: Test{Kind: Pick(r, []string{"any", "node"})}}
+					for k := r.Intn(3); k > 0; k-- {
+						e = Step{Base: e, Axis: Pick(r, []string{"self", "parent"}), Test: Test{Kind: "node"}}
+					}
+					t := Test{Kind: "any"}
+					if r.Chance(1, 2) {
+						t = Test{Kind: "name", A: Pick(r, append(append([]string{}, g.Cfg.Names...), g.Cfg.Attrs...))}
+					}
+					return Step{Base: e, Axis: "self", Test: t}, 0
+				}
 				if r.Chance(1, 8) {
 					// a step from a node-set the caller assembled in another order
 					ax := Pick(r, AllAxes)
@@ -590,12 +614,35 @@ func GenRebindFamily(w *Writer, r *Rng, t Tier, fam string) error {
 			{Uri: "urn:a", Local: "argcount", Kind: "argcount"}}
 		mk := func(ns ...NsBind) Env { return Env{Ns: ns, Vars: vars, Fns: fns} }
 		envs := []Env{mk(NsBind{"p", "urn:a"}), mk(NsBind{"p", "urn:b"}), mk(), mk(NsBind{"q", "urn:a"}, NsBind{"p", "urn:b"}), mk(NsBind{"p", "urn:a"}), mk(NsBind{"p", "http://x/y"})}
+		// a LARGE environment (more than eight prefixes, variables and functions) followed by small ones:
+		// nothing of it may be visible afterwards (seeded change C11-8 recycled the binding maps and
+		// emptied only the small ones)
+		big := mk(NsBind{"p", "urn:a"})
+		for k := 0; k < 12; k++ {
+			big.Ns = append(big.Ns, NsBind{fmt.Sprintf("p%d", k), "urn:b"})
+			big.Vars = append(big.Vars, VarBind{"", fmt.Sprintf("v%d", k), Value{Kind: "num", Num: float64(k)}})
+			big.Fns = append(big.Fns, FnBind{Local: fmt.Sprintf("f%d", k), Kind: "const", Arg: "old"})
+		}
+		big.Fns = append(big.Fns, FnBind{Local: "string-length", Kind: "const", Arg: "shadow"})
+		for _, e := range []Expr{Var{Name: "v10"}, Call{Base: Ctx{}, Name: "f10"}, Call{Base: Ctx{}, Name: "string-length", Args: []Expr{Lit{S: "abc"}}},
+			Step{Base: Step{Base: Root{}, Axis: "descendant-or-self", Test: Test{Kind: "node"}}, Axis: "child", Test: Test{Kind: "nsany", A: "p10"}}} {
+			text := Render(e, &Style{})
+			for _, env := range []Env{big, mk(), big, mk(NsBind{"p", "urn:a"}), mk()} {
+				w.Eval(EvalCase{Fam: fam, Doc: doc, Env: env, Start: 0, E: e, Xpath: text})
+			}
+		}
+		// the caller's OWN maps, handed over by a ContextApply of its own: no later Exec may touch them
+		callerMaps(w, doc, fam)
 		pv := Var{HasPfx: true, Pfx: "p", Name: "k"}
 		ps := Var{HasPfx: true, Pfx: "p", Name: "s"}
 		pf := Call{Base: Ctx{}, HasPfx: true, Pfx: "p", Name: "const"}
 		exprs := []Expr{pv, ps, pf, Bin{Op: "add", L: pv, R: NumLit{Text: "10"}}, Call{Base: Ctx{}, Name: "concat", Args: []Expr{ps, pf}},
 			Call{Base: Ctx{}, HasPfx: true, Pfx: "p", Name: "argcount", Args: []Expr{pv}},
-			Step{Base: Step{Base: Root{}, Axis: "descendant-or-self", Test: Test{Kind: "node"}}, Axis: "child", Test: Test{Kind: "nsany", A: "p"}, Preds: []Expr{Bin{Op: "ge", L: pv, R: NumLit{Text: "1"}}}}}
+			Step{Base: Step{Base: Root{}, Axis: "descendant-or-self", Test: Test{Kind: "node"}}, Axis: "child", Test: Test{Kind: "nsany", A: "p"}, Preds: []Expr{Bin{Op: "ge", L: pv, R: NumLit{Text: "1"}}}},
+			// an ABSOLUTE path with steps: after a failed run (unbound prefix) of the same compiled
+			// expression it must still start at the root, from whatever node it is executed
+			Step{Base: Step{Base: Root{}, Axis: "child", Test: Test{Kind: "any"}}, Axis: "child", Test: Test{Kind: "node"}, Preds: []Expr{Bin{Op: "ge", L: pv, R: NumLit{Text: "1"}}}},
+			Step{Base: Step{Base: Root{}, Axis: "child", Test: Test{Kind: "any"}}, Axis: "child", Test: Test{Kind: "nsany", A: "p"}}}
 		for _, e := range exprs {
 			text := Render(e, &Style{})
 			built, berr := xsel.BuildExpr(text)
@@ -606,7 +653,7 @@ func GenRebindFamily(w *Writer, r *Rng, t Tier, fam string) error {
 			}
 			order = append(order, order[0])
 			for _, k := range order {
-				c := EvalCase{Fam: fam, Doc: doc, Env: envs[k], Start: 0, E: e, Xpath: text}
+				c := EvalCase{Fam: fam, Doc: doc, Env: envs[k], Start: dr.Intn(len(doc.Dump.Cursors)), E: e, Xpath: text}
 				if berr == nil {
 					c.Built = &built
 				}
@@ -615,6 +662,44 @@ func GenRebindFamily(w *Writer, r *Rng, t Tier, fam string) error {
 		}
 	}
 	return nil
+}
+
+// callerMaps: a ContextApply may install maps the CALLER owns; they must come back unchanged from that
+// Exec and from every later one (seeded change C13-9 pooled the settings struct together with them)
+func callerMaps(w *Writer, doc *Doc, fam string) {
+	outcome := guard(func() string {
+		ns := map[string]string{"p": "urn:a"}
+		vars := map[xsel.XmlName]xsel.Result{{Local: "k"}: xsel.Number(7), {Space: "urn:a", Local: "k"}: xsel.Number(8)}
+		fns := map[xsel.XmlName]xsel.Function{{Local: "mine"}: func(c xsel.Context, args ...xsel.Result) (xsel.Result, error) { return xsel.String("m"), nil }}
+		own := func(c *xsel.ContextSettings) { c.NamespaceDecls, c.Variables, c.FunctionLibrary = ns, vars, fns }
+		run := func(text string, settings ...xsel.ContextApply) string {
+			g, err := xsel.BuildExpr(text)
+			if err != nil {
+				return "builderr"
+			}
+			res, err := xsel.Exec(doc.Dump.Cursors[0], &g, settings...)
+			if err != nil {
+				return "err"
+			}
+			return res.String()
+		}
+		first := run("concat($k, '|', $p:k, '|', mine())", own)
+		if first != "7|8|m" {
+			return "caller-maps-not-used: " + first
+		}
+		for i := 0; i < 3; i++ {
+			run("count(//*) + $z", xsel.WithVariable("z", xsel.Number(1)), xsel.WithNS("q", "urn:b"))
+			run("1")
+		}
+		if len(ns) != 1 || ns["p"] != "urn:a" || len(vars) != 2 || len(fns) != 1 {
+			return fmt.Sprintf("caller-maps-mutated: ns=%d vars=%d fns=%d", len(ns), len(vars), len(fns))
+		}
+		if again := run("concat($k, '|', $p:k, '|', mine())", own); again != first {
+			return "repeat-differs: " + again
+		}
+		return "ok"
+	})
+	w.Line("fuzz", okOnly(outcome == "ok", outcome), map[string]interface{}{"k": "fuzz", "fam": fam + "-caller-maps", "text": "a ContextApply that installs the caller's own maps, then other Execs", "outcome": outcome, "expect": "ok", "n": 3})
 }
 
 func strArgNum(g *ExprGen, r *Rng) Expr {
@@ -642,9 +727,13 @@ func docNames(d *Doc, r *Rng) (elems, attrs []string) {
 	for _, e := range d.Evs {
 		switch e.Kind {
 		case KElem:
-			elems = append(elems, e.Local)
+			if strings.TrimSpace(e.Local) == e.Local {
+				elems = append(elems, e.Local)
+			}
 		case KAttr:
-			attrs = append(attrs, e.Local)
+			if strings.TrimSpace(e.Local) == e.Local {
+				attrs = append(attrs, e.Local)
+			}
 		}
 	}
 	elems = append(elems, Pick(r, DefaultNames))
